@@ -1193,11 +1193,42 @@ func (x *Exec) strAt(s, i Term) Term {
 			return x.strAt(Term{parts[1], SStr}, Add(Term{parts[2], SInt}, i))
 		}
 	}
+	if strings.HasPrefix(s.S, "(sCat ") {
+		parts := splitTop(s.S[1 : len(s.S)-1])
+		if len(parts) == 3 {
+			a, b := Term{parts[1], SStr}, Term{parts[2], SStr}
+			return Ite(Lt(i, sLen(a)), x.strAt(a, i), x.strAt(b, Sub(i, sLen(a))))
+		}
+	}
 	t := app(SInt, "sAt", s, i)
 	key := "byte:" + t.S
-	if !x.vc.declared[key] {
+	if !x.vc.declared[key] && !strings.Contains(t.S, "!q") {
 		x.vc.declared[key] = true
 		x.vc.Assert(And(Ge(t, IntLit(0)), Le(t, IntLit(255))))
+	}
+	return t
+}
+
+func (x *Exec) strCat(a, b Term) Term {
+	if a.S == "sEmpty" {
+		return b
+	}
+	if b.S == "sEmpty" {
+		return a
+	}
+	t := app(SStr, "sCat", a, b)
+	key := "cat:" + t.S
+	if !x.vc.declared[key] {
+		x.vc.declared[key] = true
+		x.vc.Assert(Eq(sLen(t), Add(sLen(a), sLen(b))))
+		x.vc.strFacts(t)
+		x.vc.Assert(Eq(app(SStr, "sSub", t, IntLit(0), sLen(a)), a))
+		x.vc.Assert(Eq(app(SStr, "sSub", t, sLen(a), sLen(t)), b))
+		x.vc.ctr++
+		q := Term{fmt.Sprintf("i!q%d", x.vc.ctr), SInt}
+		raw := app(SInt, "sAt", t, q)
+		body := Implies(And(Le(IntLit(0), q), Lt(q, sLen(t))), Eq(raw, Ite(Lt(q, sLen(a)), x.strAt(a, q), x.strAt(b, Sub(q, sLen(a))))))
+		x.vc.Assert(Term{fmt.Sprintf("(forall ((%s Int)) (! %s :pattern (%s)))", q.S, body.S, raw.S), SBool})
 	}
 	return t
 }
@@ -1219,6 +1250,13 @@ func (x *Exec) strSub(s, lo, hi Term) Term {
 		x.vc.declared[key] = true
 		x.vc.Assert(Implies(And(Le(IntLit(0), lo), Le(lo, hi), Le(hi, sLen(s))), Eq(sLen(t), Sub(hi, lo))))
 		x.vc.strFacts(t)
+		if !strings.Contains(t.S, "!q") {
+			x.vc.ctr++
+			q := Term{fmt.Sprintf("i!q%d", x.vc.ctr), SInt}
+			raw := app(SInt, "sAt", t, q)
+			body := Implies(And(Le(IntLit(0), q), Lt(q, Sub(hi, lo))), Eq(raw, x.strAt(s, Add(lo, q))))
+			x.vc.Assert(Term{fmt.Sprintf("(forall ((%s Int)) (! %s :pattern (%s)))", q.S, body.S, raw.S), SBool})
+		}
 	}
 	return t
 }
@@ -1389,16 +1427,7 @@ func (x *Exec) binop(fr *Frame, st *State, in *ssa.BinOp) Value {
 	if k == KString {
 		switch in.Op {
 		case token.ADD:
-			t := app(SStr, "sCat", A, B)
-			if A.S == "sEmpty" {
-				return VTerm{B}
-			}
-			if B.S == "sEmpty" {
-				return VTerm{A}
-			}
-			x.vc.Assert(Eq(sLen(t), Add(sLen(A), sLen(B))))
-			x.vc.strFacts(t)
-			return VTerm{t}
+			return VTerm{x.strCat(A, B)}
 		}
 		x.vc.note("string comparison %s not modelled", in.Op)
 		return x.fresh(in.Type(), "scmp")
@@ -1417,13 +1446,37 @@ func (x *Exec) binop(fr *Frame, st *State, in *ssa.BinOp) Value {
 	case token.SUB:
 		return VTerm{x.arithResult(fr, st, Sub(A, B), in.Type(), in.Pos(), "-")}
 	case token.MUL:
-		return VTerm{x.arithResult(fr, st, Mul(A, B), in.Type(), in.Pos(), "*")}
+		prod := Mul(A, B)
+		if r, ok := x.vc.splitOnLits(B, func(l Term) Term { return Mul(A, l) }); ok {
+			prod = r
+		} else if r, ok := x.vc.splitOnLits(A, func(l Term) Term { return Mul(l, B) }); ok {
+			prod = r
+		}
+		return VTerm{x.arithResult(fr, st, prod, in.Type(), in.Pos(), "*")}
 	case token.QUO:
 		x.oblige(fr, st, "div", x.srcText(fr.fn, in.Pos(), nil), "division by zero", in.Pos(), Neq(B, IntLit(0)), nil)
-		return VTerm{x.vc.Name(x.wrapTo(TDiv(A, B), in.Type()), "q")}
+		quo := TDiv(A, B)
+		if r, ok := x.vc.splitOnLits(B, func(l Term) Term {
+			if l.S == "0" {
+				return IntLit(0)
+			}
+			return TDiv(A, l)
+		}); ok {
+			quo = r
+		}
+		return VTerm{x.vc.Name(x.wrapTo(quo, in.Type()), "q")}
 	case token.REM:
 		x.oblige(fr, st, "div", x.srcText(fr.fn, in.Pos(), nil), "modulo by zero", in.Pos(), Neq(B, IntLit(0)), nil)
-		return VTerm{x.vc.Name(TRem(A, B), "r")}
+		rem := TRem(A, B)
+		if r, ok := x.vc.splitOnLits(B, func(l Term) Term {
+			if l.S == "0" {
+				return IntLit(0)
+			}
+			return TRem(A, l)
+		}); ok {
+			rem = r
+		}
+		return VTerm{x.vc.Name(rem, "r")}
 	case token.LSS:
 		return VTerm{Lt(A, B)}
 	case token.LEQ:
